@@ -118,7 +118,10 @@ def step {R} (env : Env R) (s : State R) (t : Thread R) : State R × Thread R :=
       | some r => (s, { t with pc := .put idx r })
       | none => (s, t.advance)
   | .put idx r =>
-    ({ s with cache := cacheInsert s.cache idx r }, { t with pc := .comp r })
+    -- (since the repair of D15) another thread may have stored the rule meanwhile: keep that object
+    match cacheLookup s.cache idx with
+    | some r' => (s, { t with pc := .comp r' })
+    | none => ({ s with cache := cacheInsert s.cache idx r }, { t with pc := .comp r })
   | .comp r =>
     let s' := if s.compiled.contains (env.ruleId r) then s else { s with compiled := env.ruleId r :: s.compiled }
     let t' := if env.mtch r t.req then { t with acc := t.acc ++ [r] } else t
@@ -235,6 +238,7 @@ def actionTable : List (String × String × String × String) := [
   ("NetworkRule.preparePattern", "regex", "r", "Lock(recv)"),
   ("NetworkRule.preparePattern", "regex", "w", "Lock(recv)"),
   ("RuleStorage.GetCacheSize", "cache", "r", "none"),
+  ("RuleStorage.RetrieveRule", "cache", "r", "Lock(cacheMu)"),
   ("RuleStorage.RetrieveRule", "cache", "r", "RLock(cacheMu)"),
   ("RuleStorage.RetrieveRule", "cache", "w", "Lock(cacheMu)")
 ]
